@@ -325,3 +325,36 @@ func (p *Path) scaledBy(x *Term, k uint64, signed bool) (*Term, uint64, bool) {
 	}
 	return y, c, true
 }
+
+// nonNegNoWrap: by the intervals of this path, x is non-negative as a signed 64-bit value.
+func (p *Path) nonNeg(x *Term) bool {
+	iv := p.interval(x)
+	return iv.ok && iv.hi <= 1<<63-1
+}
+
+// remConst / divConst build x % k and x / k (signed, k > 0 constant) after the rewrites that need no solver:
+//   (y*k + c) with 0 <= c < k            -> c          / y
+//   (y + c) with k | c, y >= 0, c >= 0   -> y % k      / y / k + c/k
+//   x - (x % k)                          ->            / x / k
+func (p *Path) remConst(x *Term, k uint64) *Term {
+	if _, r, ok := p.scaledBy(x, k, true); ok {
+		return BV(64, r)
+	}
+	if x.Op == OpBVAdd && x.Args[1].IsConst() && x.Args[1].C%k == 0 && int64(x.Args[1].C) >= 0 && p.nonNeg(x.Args[0]) && p.nonNeg(x) {
+		return p.remConst(x.Args[0], k)
+	}
+	return BVBin(OpBVSRem, x, BV(64, k))
+}
+
+func (p *Path) divConst(x *Term, k uint64) *Term {
+	if q, _, ok := p.scaledBy(x, k, true); ok {
+		return q
+	}
+	if x.Op == OpBVAdd && x.Args[1].IsConst() && x.Args[1].C%k == 0 && int64(x.Args[1].C) >= 0 && p.nonNeg(x.Args[0]) && p.nonNeg(x) {
+		return BVBin(OpBVAdd, p.divConst(x.Args[0], k), BV(64, x.Args[1].C/k))
+	}
+	if x.Op == OpBVSub && x.Args[1].Op == OpBVSRem && x.Args[1].Args[0] == x.Args[0] && x.Args[1].Args[1].IsConst() && x.Args[1].Args[1].C == k {
+		return p.divConst(x.Args[0], k)
+	}
+	return BVBin(OpBVSDiv, x, BV(64, k))
+}
